@@ -305,6 +305,15 @@ def var_namespace(c, facts, R):
                 no = s['rv']['ops'][f.index('n')]
                 a = MF.slice_back(nx, lo['l'], nidx) if 'l' in lo else {'args': set()}
                 ok = 1 in a['args'] and 'l' in no
+    if not ok:
+        # `let id = self.0.clone(); self.0.n += 1; id`: the returned TagId is a clone of the sequence's own TagId, taken
+        # before the counter is advanced
+        nidx = MF.defs_index(nx)
+        rs = MF.slice_back(nx, 0, nidx)
+        clones = [(n, t, b) for n, t, b in rs['calls'] if P.strip(n).endswith('Clone::clone') and 'TagId' in t['dest'].get('ty', '')]
+        incs = [b for b, blk in nx.blocks() for s in blk['stmts'] if s['s'] == 'assign' and s['place']['proj'] and MF.field_path(s['place'])[-1:] == ['n']]
+        if clones and 1 in rs['args'] and incs and all(nx.dominates(clones[0][2], b) and b != clones[0][2] or b in nx.reachable_from(clones[0][1]['target']) for b in incs):
+            ok = True
     if ok:
         c.ok(R, {'Seq::next': 'TagId { loc: self.loc, n }'})
     else:
